@@ -382,7 +382,18 @@ impl<'a> HistGen<'a> {
                     let src = if git { self.existing(&tracked_wt) } else { self.existing(&wt) };
                     let to = self.new_path(false);
                     let edit = self.rng.chance(1, 3);
-                    src.map(|from| GitOp::Move { from, to, git, edit })
+                    src.map(|from| {
+                        // the bytes on disk are a function of (name class, model content): a move keeps the class
+                        let class = |p: &str| [".s0.big", ".s1.big", ".s2.big", ".big"].iter().find(|x| p.ends_with(**x)).map(|x| x.to_string());
+                        let to = match (class(&from), class(&to)) {
+                            (a, b) if a == b => to,
+                            (Some(a), Some(b)) => format!("{}{}", to.trim_end_matches(b.as_str()), a),
+                            (Some(a), None) => format!("{}{}", to, a),
+                            (None, Some(b)) => format!("{}.dat", to.trim_end_matches(b.as_str())),
+                            (None, None) => to,
+                        };
+                        GitOp::Move { from, to, git, edit }
+                    })
                 }
                 11 | 12 => {
                     let mut cands: BTreeSet<String> = wt.clone();
@@ -479,7 +490,9 @@ pub fn exec_repo_op(w: &mut World, op: &GitOp, model_after: &RGit) -> Result<(),
             } else {
                 std::fs::rename(w.root.join(from), w.root.join(to)).map_err(|e| format!("mv: {}", e))?;
             }
-            if *edit {
+            // the bytes on disk are a function of (path, model content): a file that moves into or out of a
+            // `.big` name is rewritten in the form of its new name
+            if *edit || from.ends_with(".big") != to.ends_with(".big") {
                 let c = model_after.wt.get(to).ok_or("model lost path")?;
                 write_managed(w, to, c)?;
             }
